@@ -10,7 +10,7 @@ import (
 // NoiseKinds lists, per probe kind, the must-reject perturbations (C01/C04) the generator draws from.
 // strictOnly kinds are must-reject only with strict quoted-source checking.
 var quoteNoiseKinds = map[string][]string{
-	"icmp-echo": {"q-short", "q-none", "q-dst-addr", "q-src-addr", "q-echo-id", "q-echo-seq256", "q-unsent", "echo-reply-id", "echo-reply-seq256", "echo-reply-foreign", "echo-reply-unsent"},
+	"icmp-echo": {"q-short", "q-none", "q-dst-addr", "q-src-addr", "q-echo-id", "q-echo-seq256", "q-echo-type", "q-unsent", "echo-reply-id", "echo-reply-seq256", "echo-reply-foreign", "echo-reply-unsent"},
 	"udp":       {"q-short", "q-none", "q-dst-addr", "q-dst-port", "q-src-addr", "q-src-port", "q-id", "q-unsent"},
 	"tcp-syn":   {"q-short", "q-none", "q-dst-addr", "q-dst-port", "q-src-addr", "q-src-port", "q-id", "q-tcp-seq", "q-unsent", "tcp-wrong-src", "tcp-wrong-sport", "tcp-wrong-dport", "tcp-wrong-dst", "tcp-ack-wrong", "tcp-flags-other"},
 	"tcp-ack":   {"q-short", "q-none", "q-dst-addr", "q-dst-port", "q-src-addr", "q-src-port", "q-tcp-seq", "q-unsent", "sack-wrong-src", "sack-wrong-sport", "sack-wrong-dport", "sack-wrong-dst", "sack-edge-oob", "sack-edge-unsent", "sack-synflag"},
@@ -142,6 +142,23 @@ func (n *NetWorld) buildNoise(fs *flowSt, p *Probe, ni NoiseItem) (Sched, bool) 
 			id ^= 0xff00
 		}
 		binary.BigEndian.PutUint16(raw[off+4:], id)
+		return quoted(raw)
+	case "q-echo-type":
+		// the quoted datagram is not an echo request at all (another ICMP message, or for some arguments a UDP
+		// datagram), although the bytes where an echo carries identifier and sequence number agree with a probe
+		// of this run; the echo reply type is left out (never asserted either way)
+		types := []byte{13, 17, 3, 11, 42, 255, 9, 127}
+		if v6 {
+			types = []byte{130, 135, 1, 3, 127, 255, 133, 160}
+		}
+		raw[off] = types[arg%len(types)]
+		if arg%3 == 0 {
+			if v6 {
+				raw[6] = 17
+			} else {
+				raw[9] = 17
+			}
+		}
 		return quoted(raw)
 	case "q-echo-seq256":
 		// agrees with a sent probe only modulo 256
